@@ -1,23 +1,71 @@
-(* C05 - Concatenation.  Statements only.  iadd models AnsiString.__iadd__ (as repaired, known_findings
-   F8 F11 F12 F16b), add = copy then +=, join_astr models join. *)
+(* C05 - Concatenation keeps each operand's per-character styles; no bleed at the seam.
+   Statements only.  iadd models AnsiString.__iadd__ (as repaired, known_findings F8 F11 F12 F16b F26),
+   add = copy then +=, join_astr models join.  WF is the reachable-value invariant (change points
+   strictly increasing, none beyond the text, the library's strict self-check passes, no object active
+   twice, nothing left open); `coherent` says an object identity determines its text - true of Python
+   objects, needed because the model's settings are (identity, text) pairs.
+   active_at (tbl s) k is what ansi_settings_at(k) reports. *)
 From AS Require Import Base.
 From AS.Model Require Import Table Ops.
-From AS.Proofs Require Import TableProofs SliceProofs BasicProofs.
+From AS.Proofs Require Import TableProofs SliceProofs PadProofs ConcatProofs.
 
-(* text of a + b / a += b *)
-Theorem C05_text : forall a b c, iadd a b = OK c -> base c = base a ++ base b.
+(* a + b succeeds on well-formed operands (the IndexError branch of the seam re-targeting is
+   unreachable), the text is a.text + b.text *)
+Theorem C05_total : forall a b, WF a -> WF b -> exists c, iadd a b = OK c.
+Proof. exact iadd_ok. Qed.
+Theorem C05_text : forall a b, WF a -> WF b -> forall c, iadd a b = OK c -> base c = base a ++ base b.
 Proof. exact iadd_base. Qed.
+Print Assumptions C05_total.
 Print Assumptions C05_text.
+
+(* every character of a keeps exactly its settings - the same objects in the same order *)
+Theorem C05_left : forall a b, WF a -> WF b -> forall c, iadd a b = OK c ->
+  forall k, k < length (base a) -> active_at (tbl c) k = active_at (tbl a) k.
+Proof. exact iadd_left. Qed.
+Print Assumptions C05_left.
+
+(* every character of b keeps exactly the texts of its settings, in the same order (same precedence),
+   whether the styles at the seam are equal (merged), a prefix, different, nested or overlapping;
+   identities are not preserved across a merge (b's objects are replaced by a's), which no public
+   query can observe on the result alone *)
+Theorem C05_right : forall a b, WF a -> WF b -> forall c, coherent (tbl a) -> iadd a b = OK c ->
+  forall k, map stxt (active_at (tbl c) (length (base a) + k)) = map stxt (active_at (tbl b) k).
+Proof. exact iadd_right. Qed.
+Print Assumptions C05_right.
+
+(* without a merge even the objects are b's own *)
+Theorem C05_right_identities : forall a b, WF a -> WF b -> forall c, merges a b = false -> iadd a b = OK c ->
+  forall k, active_at (tbl c) (length (base a) + k) = active_at (tbl b) k.
+Proof. exact iadd_right_ident. Qed.
+Print Assumptions C05_right_identities.
+
+(* the result is well formed again (in particular closed: nothing bleeds into text appended later),
+   and identities still determine texts *)
+Theorem C05_wf : forall a b, WF a -> WF b -> forall c, coherent (tbl a) -> iadd a b = OK c -> WF c.
+Proof. exact iadd_WF. Qed.
+Theorem C05_coherent : forall a b c,
+  coherent (tbl a) -> coherent (tbl b) -> coherent_pair a b -> iadd a b = OK c -> coherent (tbl c).
+Proof. exact iadd_coherent. Qed.
+Print Assumptions C05_wf.
+Print Assumptions C05_coherent.
 
 (* a plain str operand has no settings: the table of the left operand is kept as it is *)
 Theorem C05_str_operand : forall (a : astr) (t : str), iadd a (plain t) = OK (mkA (base a ++ t) (tbl a)).
 Proof. exact iadd_plain. Qed.
 Print Assumptions C05_str_operand.
 
-(* a + b is a += b on a copy; join(x1, ..., xn) = ((x1 + x2) + ...) + xn *)
+(* a + b is a += b on a copy; join(x1, ..., xn) = ((x1 + x2) + ...) + xn, total and well formed *)
 Theorem C05_add : forall a b, add a b = iadd a b.
 Proof. exact add_is_iadd. Qed.
-Theorem C05_join : forall x xs,
-  join_astr (x :: xs) = fold_left (fun acc y => do a <- acc; iadd a y) xs (OK x).
+Theorem C05_join : forall x xs, join_astr (x :: xs) = fold_left iadd_res xs (OK x).
 Proof. exact join_astr_fold. Qed.
+Theorem C05_join_wf : forall x xs, Forall WF (x :: xs) -> coherent (tbls (x :: xs)) ->
+  exists c, join_astr (x :: xs) = OK c /\ WF c /\ base c = concat (map base (x :: xs)) /\ coherent (tbl c).
+Proof. exact join_WF. Qed.
 Print Assumptions C05_join.
+Print Assumptions C05_join_wf.
+
+(* non-vacuity: merging, non-merging and shared-identity operands (two halves of one string; the
+   repaired F26 configuration) satisfy the hypotheses - see the Examples of Proofs/ConcatProofs.v *)
+Example C05_example_halves := ex_merge_halves.
+Example C05_example_f26 := ex_shared_identity_repaired.
